@@ -396,7 +396,8 @@ def namedMechP : P (List (Process Float)) := do
     pure { reactants := rs, products := ps }
 
 def buildCase : P String := do
-  let hasSys ← boolT; let hasRx ← nat; let ignoreUnused ← boolT; let reorder ← boolT
+  let hasSys ← boolT      -- 1: set; 2: set after another system was set on the same builder (value semantics: same as 1)
+  let hasRx ← nat; let ignoreUnused ← boolT; let reorder ← boolT
   let sys ← systemP
   let mech ← namedMechP
   let inp : BuildInput Float := { system := if hasSys then some sys else none,
